@@ -294,6 +294,18 @@ def gen(r, tier):
             if o.get("op") == "req" and o["m"] != GET and o.get("b1szx") is None and o.get("observe") is None and r.chance(0.3):
                 o["observe"] = 0
                 o["rst_after"] = 0
+    elif r.chance(0.3):
+        # a writable server: a modifying request that also carries Observe: 0 (a client library that sets the option on
+        # whatever it sends) is carried out once, like any other; somebody else changes the file afterwards, and the
+        # server's 10 s refresh poll comes round
+        cand = [i for i, o in enumerate(ops) if o.get("op") == "req" and o["m"] in (PUT, DELETE) and o.get("b1szx") is None
+                and o.get("observe") is None and is_plain(o["path"])]
+        if cand:
+            i = r.choice(cand)
+            ops[i]["observe"] = 0
+            tail = [req(PUT, ops[i]["path"], payload=[r.randint(100, 999), r.choice([5, 17, 100])]),
+                    {"op": "sleep", "d": r.choice([10.5, 21.0])}]
+            ops[i + 1:i + 1] = tail
     net = faults.swarm(r, kinds=("drop", "dup", "delay"))
     net["delay_max"] = min(net.get("delay_max", 0.5), 0.5)
     out = scn(ops, write=write, tree=tree, net=net)
